@@ -251,9 +251,7 @@ Definition pass2_step (acc : option mst) (ie : nat * entry) : option mst :=
           if etype_eqb (e_type e) THardlink then
             match m_source (S (length (ms_m s2))) s2 i with
             | None => None
-            | Some org =>
-                if etype_eqb (m_type s2 org) TDir then None   (* hardlink to a directory: rejected *)
-                else Some (m_add_child (m_nlink_inc s2 org) pid base org)
+            | Some org => Some (m_add_child (m_nlink_inc s2 org) pid base org)
             end
           else Some (m_add_child s2 pid base i)
       end
@@ -450,9 +448,6 @@ Definition d_add_chunk (s : dst) (e : entry) (cs : Z) : dst :=
     end
   else s.
 
-Definition d_is_dir (s : dst) (i : nat) : bool :=
-  match nth_error (ds_nodes s) i with Some n => 2147483648 <=? dflt (b_mode (dn_b n)) | None => false end.
-
 (* initNodes, one entry; None = the transaction fails, the layer is rejected *)
 Definition db_step (acc : option dst) (e : entry) : option dst :=
   match acc with
@@ -470,9 +465,7 @@ Definition db_step (acc : option dst) (e : entry) : option dst :=
           if etype_eqb (e_type e) THardlink then
             match d_find s (clean (e_hl e)) with
             | None => None
-            | Some id =>
-                if d_is_dir s id then None      (* hardlink to a directory: rejected *)
-                else Some (d_upd_bucket s id bump_nlink, id)
+            | Some id => Some (d_upd_bucket s id bump_nlink, id)
             end
           else
             match (if etype_eqb (e_type e) TDir then d_find s name else None) with
